@@ -131,6 +131,10 @@ func (s *Sniffer) readStreamOnceWithReadDeadline() error {
 
 	var netErr net.Error
 	if errors.As(err, &netErr) && netErr.Timeout() {
+		// The sniffer's own deadline expired: the connection is healthy and the deadline is
+		// cleared on return. Do not latch the timeout in dataError, or every later Read of
+		// the relay would fail with it instead of draining buf and reading the connection.
+		s.dataError = nil
 		// Keep behavior consistent with context timeout path in the legacy async read.
 		return fmt.Errorf("%w: %w", ErrNotApplicable, context.DeadlineExceeded)
 	}
@@ -169,9 +173,15 @@ func (s *Sniffer) readStreamOnceAsync() error {
 	case <-ctx.Done():
 		// If read is still pending, we must unblock it.
 		if s.conn != nil {
-			_ = s.conn.SetReadDeadline(time.Unix(1, 0))
+			unblocked := s.conn.SetReadDeadline(time.Unix(1, 0)) == nil
 			<-ready
 			_ = s.conn.SetReadDeadline(time.Time{})
+			if unblocked {
+				// Same as the read-deadline path: our own timeout is not a connection
+				// error. (Without deadline support the pending read cannot be cancelled
+				// and still owns the stream, so the error stays latched.)
+				s.dataError = nil
+			}
 		}
 		return fmt.Errorf("%w: %w", ErrNotApplicable, context.DeadlineExceeded)
 	}
